@@ -1,6 +1,6 @@
 (* Ops/C04.v — protocol entry points for property C04 (single-crossing). *)
 From Coq Require Import List NArith String.
-From PrefVerif Require Import Lib.Val Model.SC.
+From PrefVerif Require Import Lib.Val Model.SC Model.SCAlgo.
 Import ListNotations.
 Open Scope string_scope.
 
@@ -27,6 +27,12 @@ Definition op_core (v : val) : val :=
 (* c04.ordered (sequence) -> bool : mirror of _is_ordered_profile_single_crossing (Kendall-tau additivity) *)
 Definition op_ordered (v : val) : val := ebool (ordered_check (d_orders (dnth 0 v))).
 
+(* c04.algo (alts orders) -> (0 (seq)) | (0 ()) | (1 5) : mirror of is_single_crossing
+   (True, seq) / (False, None) / IndexError *)
+Definition op_algo (v : val) : val :=
+  eresult (eoption (elist (elist eN))) (sc_algo (d_order (dnth 0 v)) (d_orders (dnth 1 v))).
+
 Definition ops : optable :=
   [ ("c04.decide", op_decide); ("c04.cdecide", op_cdecide); ("c04.check", op_check);
-    ("c04.seqcheck", op_seqcheck); ("c04.core", op_core); ("c04.ordered", op_ordered) ].
+    ("c04.seqcheck", op_seqcheck); ("c04.core", op_core); ("c04.ordered", op_ordered);
+    ("c04.algo", op_algo) ].
